@@ -17,7 +17,9 @@ Definition max_count : N := max_int32.
 
 (** decodeBytesBitpackDefault(dst, src, count, bitWidth): per group of 8
     values, [byteCount = ByteCount(8*bitWidth) = bitWidth] bytes are copied
-    into an 8-byte word; value k is [byte((word >> (k*bitWidth)) & bitMask)]. *)
+    into an 8-byte word; value k is [byte((word >> (k*bitWidth)) & bitMask)].
+    At bit width 0 decodeBytes clears the destination instead (3bd17ac): the
+    same zeros. *)
 Definition go_unpack_groups (w : N) (groups : nat) (src : bytes) : list N :=
   go_unpack_chunks 8 w groups src.
 
